@@ -3,7 +3,7 @@
    OCaml types; Z, N, positive and Flocq's binary_float stay Coq datatypes. *)
 From Coq Require Extraction.
 From Coq Require Import ExtrOcamlBasic.
-From F1 Require Import Base.Prelude Base.F64 Model.Verdict Model.Distribution Model.Staged Model.Jitter Model.Progress.
+From F1 Require Import Base.Prelude Base.F64 Model.Verdict Model.Distribution Model.Staged Model.Jitter Model.Progress Model.TestingT.
 
 Extraction Language OCaml.
 Extraction "model.ml"
@@ -13,4 +13,5 @@ Extraction "model.ml"
   f_of_bits f_to_bits f_add f_sub f_mul f_div f_max f_floor f_ceil f_round f_trunc f_to_int f_of_Z f_lt f_le f_eq
   staged_run staged_ok ramp_run_f64 ramp_ok interp_ok
   jit_run_f64 jit_ok
-  stats_run stats0 c01_ok exec init terminal.
+  stats_run stats0 c01_ok exec init terminal
+  worker_obs run_obs combine_obs.
